@@ -9,13 +9,17 @@ Yes(b) == [ok |-> TRUE, s |-> b]
 No(b) == [ok |-> FALSE, s |-> b]
 Given(c) == IF c.n = -1 THEN TakeUntilNul(c.data) ELSE SubSeq(c.data, 1, c.n)
 BadLen(c) == IF c.op \in {"set", "new"} THEN FALSE ELSE (c.n < 0 \/ c.n >= IntMax - 1)
+\* c.fault = 1: the harness made an allocation request of this very call fail (and the failure was delivered): the
+\* call may then be refused, leaving the previous contents (C08 on C11's histories)
+FaultOf(c) == IF "fault" \in DOMAIN c THEN c.fault ELSE 0
 \* creation: ret = 1 iff a node was returned
 NewStep(s, c) == IF BadLen(c) THEN (IF c.ret = 0 THEN Yes(s) ELSE No(s))
-                 ELSE IF c.ret = 1 THEN Yes(Given(c)) ELSE No(s)
+                 ELSE IF c.ret = 1 THEN Yes(Given(c))
+                 ELSE IF c.ret = 0 /\ FaultOf(c) = 1 THEN Yes(s) ELSE No(s)
 \* set: ret = 1 on success; a refused set leaves the previous contents
 SetStep(s, c) == IF BadLen(c) THEN (IF c.ret = 0 THEN Yes(s) ELSE No(s))
                  ELSE IF c.ret = 1 THEN Yes(Given(c))
-                 ELSE IF c.ret = 0 /\ Len(Given(c)) >= BigAlloc THEN Yes(s)
+                 ELSE IF c.ret = 0 /\ (Len(Given(c)) >= BigAlloc \/ FaultOf(c) = 1) THEN Yes(s)
                  ELSE No(s)
 CallStep(s, c) == IF c.op \in {"new", "newlen"} THEN NewStep(s, c)
                   ELSE IF c.op \in {"set", "setlen"} THEN SetStep(s, c)
